@@ -435,9 +435,9 @@ def build(tier):
     E.setup()
     return CheckSpec(
         [
-            Sub("window", run_window, strategy=_window_case, budget={"quick": 4000, "thorough": 100000}, max_wall={"quick": 50, "thorough": 1200}),
-            Sub("wire", run_wire, strategy=_wire_case, budget={"quick": 800, "thorough": 20000}, max_wall={"quick": 55, "thorough": 2400}),
-            Sub("echo", run_echo, strategy=_echo_case, budget={"quick": 1000, "thorough": 20000}, max_wall={"quick": 50, "thorough": 1200}),
+            Sub("window", run_window, strategy=_window_case, budget={"quick": 4000, "thorough": 500000}, max_wall={"quick": 50, "thorough": 3600}),
+            Sub("wire", run_wire, strategy=_wire_case, budget={"quick": 800, "thorough": 100000}, max_wall={"quick": 55, "thorough": 3600}),
+            Sub("echo", run_echo, strategy=_echo_case, budget={"quick": 1000, "thorough": 100000}, max_wall={"quick": 50, "thorough": 3600}),
         ],
         RULE,
         assumptions=[
